@@ -310,7 +310,21 @@ impl BuildJob<'_> {
                 .suffix(".log.tmp")
                 .tempfile_in(lfend.parent().unwrap())
                 .map_err(RedoError::opaque_error)?;
+            #[cfg(feature = "verif")]
+            let lfend_verif = lfend.clone();
             lfd.persist(lfend).map_err(RedoError::opaque_error)?;
+            #[cfg(feature = "verif")]
+            {
+                use std::os::unix::fs::MetadataExt;
+                crate::verif::point(
+                    "job.logfile",
+                    &format!(
+                        "{} {}",
+                        lock.file_id(),
+                        std::fs::metadata(&lfend_verif).map(|m| m.ino()).unwrap_or(0)
+                    ),
+                );
+            }
         }
         let mut dof = state::File::from_name(&mut ptx, &df.do_dir.join(&df.do_file), true)?;
         dof.set_static(ptx.state().env())?;
@@ -831,6 +845,8 @@ where
                     // Another spelling of a file that is already being handled.
                     continue;
                 }
+                #[cfg(feature = "verif")]
+                crate::verif::point("run.target", &format!("{} {}", f.id(), t));
                 let mut lock = ptx.state().new_lock(f.id().try_into().unwrap());
                 if ptx.state().env().unlocked {
                     lock.force_owned();
@@ -980,7 +996,11 @@ where
     job_futures.fold((), |_, _| future::ready(())).await;
     loops_result?;
     #[cfg(feature = "verif")]
-    crate::verif::point("run.end", "");
+    {
+        let r = result.replace(Ok(()));
+        crate::verif::point("run.end", if r.is_ok() { "ok" } else { "err" });
+        result.set(r);
+    }
     result.replace(Ok(()))
 }
 
